@@ -1,6 +1,6 @@
 (* C16, mark-to-market clause stated on the days handed to beancount.Transcode (the model side of
    Spec/BeancountMtmSpec.v, which states it on the emitted ledger): the exact sum of the values of
-   the postings on an account, and the calendar side condition of the step count. *)
+   the postings on an account. *)
 From Coq Require Import ZArith List Bool.
 From Knut Require Import Model.Str Model.Dec Model.Date Model.Account Model.Ledger
      Spec.BeancountMtmSpec.
@@ -10,10 +10,3 @@ Open Scope Z_scope.
 (* exact decimal sum of the values posted to account a (the analogue of ledger_total on postings) *)
 Definition posted_total (a : account) (ps : list posting) : dec :=
   fold_left (fun s p => if acc_eqb (p_acc p) a then add s (p_val p) else s) ps (mkDec 0 0).
-
-(* every directive is dated on or after day 0 = 0001-01-01 (Go's zero time): the window
-   [0, last_date] of the step count then contains the whole journal.  (Dates of the year 0000 are
-   negative day numbers; the parser accepts them, the step count of mtm_check does not see them.) *)
-Definition dates_nonneg (dl : list directive) : Prop := forall d, In d dl -> 0 <= directive_date d.
-
-Definition dates_nonneg_b (dl : list directive) : bool := forallb (fun d => 0 <=? directive_date d) dl.
